@@ -103,3 +103,132 @@ fn vec_visitor_bounded_allocation() {
         assert!(v.capacity() <= core::cmp::max(4096, 2 * count + 8));
     }
 }
+
+// ---- C15 / C08: the element codecs hand the wire bytes, unchanged, to the VALIDATING bls12_381 decoder
+// (canonical + on-curve + in-subgroup / canonical scalar) and accept exactly what it accepts.  The bls12_381 decoders
+// are replaced by recording stubs (their documented contract is the assumption); reaching any non-validating decoder
+// is an error.  Loop bounds are the fixed atom widths (48 / 96 / 32 bytes): complete for all byte strings.
+struct U8De(u8);
+impl<'de> Deserializer<'de> for U8De {
+    type Error = HErr;
+    fn deserialize_any<V: Visitor<'de>>(self, v: V) -> Result<V::Value, HErr> { v.visit_u8(self.0) }
+    forward_to_deserialize_any! { bool i8 i16 i32 i64 i128 u8 u16 u32 u64 u128 f32 f64 char str string bytes byte_buf option unit unit_struct newtype_struct seq tuple tuple_struct map struct enum identifier ignored_any }
+}
+struct ByteSeq<'a> { bytes: &'a [u8], pos: usize }
+impl<'de, 'a> SeqAccess<'de> for ByteSeq<'a> {
+    type Error = HErr;
+    fn next_element_seed<T: DeserializeSeed<'de>>(&mut self, seed: T) -> Result<Option<T::Value>, HErr> {
+        if self.pos >= self.bytes.len() { return Ok(None); }
+        let b = self.bytes[self.pos];
+        self.pos += 1;
+        seed.deserialize(U8De(b)).map(Some)
+    }
+    fn size_hint(&self) -> Option<usize> { Some(self.bytes.len() - self.pos) }
+}
+struct BytesDe<'a> { bytes: &'a [u8] }
+impl<'de, 'a> Deserializer<'de> for BytesDe<'a> {
+    type Error = HErr;
+    fn deserialize_any<V: Visitor<'de>>(self, _v: V) -> Result<V::Value, HErr> { Err(HErr) }
+    fn deserialize_tuple<V: Visitor<'de>>(self, _len: usize, v: V) -> Result<V::Value, HErr> { v.visit_seq(ByteSeq { bytes: self.bytes, pos: 0 }) }
+    fn deserialize_seq<V: Visitor<'de>>(self, v: V) -> Result<V::Value, HErr> { v.visit_seq(ByteSeq { bytes: self.bytes, pos: 0 }) }
+    forward_to_deserialize_any! { bool i8 i16 i32 i64 i128 u8 u16 u32 u64 u128 f32 f64 char str string bytes byte_buf option unit unit_struct newtype_struct tuple_struct map struct enum identifier ignored_any }
+}
+
+static mut SEEN48: [u8; 48] = [0; 48];
+static mut SEEN96: [u8; 96] = [0; 96];
+static mut SEEN32: [u8; 32] = [0; 32];
+static mut VALIDATING_CALLS: u32 = 0;
+static mut UNCHECKED_CALLS: u32 = 0;
+static mut ACCEPT: bool = false;
+
+fn stub_g1_from_compressed(bytes: &[u8; 48]) -> subtle::CtOption<bls12_381::G1Affine> {
+    unsafe { SEEN48 = *bytes; VALIDATING_CALLS += 1; ACCEPT = kani::any(); subtle::CtOption::new(bls12_381::G1Affine::generator(), subtle::Choice::from(ACCEPT as u8)) }
+}
+fn stub_g1_unchecked(_bytes: &[u8; 48]) -> subtle::CtOption<bls12_381::G1Affine> {
+    unsafe { UNCHECKED_CALLS += 1; }
+    subtle::CtOption::new(bls12_381::G1Affine::generator(), subtle::Choice::from(1u8))
+}
+fn stub_g1_unc96(_bytes: &[u8; 96]) -> subtle::CtOption<bls12_381::G1Affine> {
+    unsafe { UNCHECKED_CALLS += 1; }
+    subtle::CtOption::new(bls12_381::G1Affine::generator(), subtle::Choice::from(1u8))
+}
+fn stub_g2_from_compressed(bytes: &[u8; 96]) -> subtle::CtOption<bls12_381::G2Affine> {
+    unsafe { SEEN96 = *bytes; VALIDATING_CALLS += 1; ACCEPT = kani::any(); subtle::CtOption::new(bls12_381::G2Affine::generator(), subtle::Choice::from(ACCEPT as u8)) }
+}
+fn stub_g2_unchecked(_bytes: &[u8; 96]) -> subtle::CtOption<bls12_381::G2Affine> {
+    unsafe { UNCHECKED_CALLS += 1; }
+    subtle::CtOption::new(bls12_381::G2Affine::generator(), subtle::Choice::from(1u8))
+}
+fn stub_g2_unc192(_bytes: &[u8; 192]) -> subtle::CtOption<bls12_381::G2Affine> {
+    unsafe { UNCHECKED_CALLS += 1; }
+    subtle::CtOption::new(bls12_381::G2Affine::generator(), subtle::Choice::from(1u8))
+}
+fn stub_scalar_from_bytes(bytes: &[u8; 32]) -> subtle::CtOption<bls12_381::Scalar> {
+    unsafe { SEEN32 = *bytes; VALIDATING_CALLS += 1; ACCEPT = kani::any(); subtle::CtOption::new(bls12_381::Scalar::one(), subtle::Choice::from(ACCEPT as u8)) }
+}
+fn stub_scalar_wide(_bytes: &[u8; 64]) -> bls12_381::Scalar { unsafe { UNCHECKED_CALLS += 1; } bls12_381::Scalar::one() }
+fn stub_scalar_raw(_v: [u64; 4]) -> bls12_381::Scalar { unsafe { UNCHECKED_CALLS += 1; } bls12_381::Scalar::one() }
+
+#[kani::proof]
+#[kani::unwind(50)]
+#[kani::stub(bls12_381::G1Affine::from_compressed, stub_g1_from_compressed)]
+#[kani::stub(bls12_381::G1Affine::from_compressed_unchecked, stub_g1_unchecked)]
+#[kani::stub(bls12_381::G1Affine::from_uncompressed, stub_g1_unc96)]
+#[kani::stub(bls12_381::G1Affine::from_uncompressed_unchecked, stub_g1_unc96)]
+fn g1_codec_validates() {
+    let bytes: [u8; 48] = kani::any();
+    let r = <bls12_381::G1Affine as SerializeElement>::deserialize(BytesDe { bytes: &bytes });
+    unsafe {
+        assert!(UNCHECKED_CALLS == 0);
+        assert!(VALIDATING_CALLS == 1);
+        assert!(SEEN48 == bytes);
+        assert!(r.is_ok() == ACCEPT);
+    }
+}
+
+/// C16: a short atom is an error, never a panic, and reaches no decoder
+#[kani::proof]
+#[kani::unwind(50)]
+#[kani::stub(bls12_381::G1Affine::from_compressed, stub_g1_from_compressed)]
+#[kani::stub(bls12_381::G1Affine::from_compressed_unchecked, stub_g1_unchecked)]
+fn g1_codec_short_input() {
+    let bytes: [u8; 48] = kani::any();
+    let n: usize = kani::any();
+    kani::assume(n < 48);
+    let r2 = <bls12_381::G1Affine as SerializeElement>::deserialize(BytesDe { bytes: &bytes[..n] });
+    assert!(r2.is_err());
+    unsafe { assert!(VALIDATING_CALLS == 0 && UNCHECKED_CALLS == 0); }
+}
+
+#[kani::proof]
+#[kani::unwind(98)]
+#[kani::stub(bls12_381::G2Affine::from_compressed, stub_g2_from_compressed)]
+#[kani::stub(bls12_381::G2Affine::from_compressed_unchecked, stub_g2_unchecked)]
+#[kani::stub(bls12_381::G2Affine::from_uncompressed, stub_g2_unc192)]
+#[kani::stub(bls12_381::G2Affine::from_uncompressed_unchecked, stub_g2_unc192)]
+fn g2_codec_validates() {
+    let bytes: [u8; 96] = kani::any();
+    let r = <bls12_381::G2Affine as SerializeElement>::deserialize(BytesDe { bytes: &bytes });
+    unsafe {
+        assert!(UNCHECKED_CALLS == 0);
+        assert!(VALIDATING_CALLS == 1);
+        assert!(SEEN96 == bytes);
+        assert!(r.is_ok() == ACCEPT);
+    }
+}
+
+#[kani::proof]
+#[kani::unwind(34)]
+#[kani::stub(bls12_381::Scalar::from_bytes, stub_scalar_from_bytes)]
+#[kani::stub(bls12_381::Scalar::from_bytes_wide, stub_scalar_wide)]
+#[kani::stub(bls12_381::Scalar::from_raw, stub_scalar_raw)]
+fn scalar_codec_validates() {
+    let bytes: [u8; 32] = kani::any();
+    let r = <bls12_381::Scalar as SerializeElement>::deserialize(BytesDe { bytes: &bytes });
+    unsafe {
+        assert!(UNCHECKED_CALLS == 0);
+        assert!(VALIDATING_CALLS == 1);
+        assert!(SEEN32 == bytes);
+        assert!(r.is_ok() == ACCEPT);
+    }
+}
